@@ -20,6 +20,7 @@ structure Esc where
   escape : Bytes      -- const ESCAPE
   upPre : Bytes       -- moveUpf format before %d
   upPost : Bytes      -- moveUpf format after %d
+  upArg : Int         -- goTo: the argument of moveUp(…)
   hide : Bytes        -- hideCursor
   unhide : Bytes      -- showCursor
   erase : Bytes       -- eraseRemainingLine
@@ -31,7 +32,7 @@ structure Esc where
   deriving DecidableEq, Repr
 
 def handEsc : Esc :=
-  { escape := [0x1b], upPre := [0x5b], upPost := [0x41],
+  { escape := [0x1b], upPre := [0x5b], upPost := [0x41], upArg := 1,
     hide := [0x5b, 0x3f, 0x32, 0x35, 0x6c], unhide := [0x5b, 0x3f, 0x32, 0x35, 0x68],
     erase := [0x5b, 0x30, 0x4b], nl := [10], cr := [13], closeNl := [10],
     trimEsc := 27, trimEnd := 109 }
@@ -93,13 +94,13 @@ def TermWriter.new : TermWriter :=
 def repeatBytes (n : Nat) (piece : Bytes) : Bytes := (List.replicate n piece).flatten
 
 /-- `goTo(line)`: the first loop runs `line - cursor` times (if positive) printing "\n", the second
-`cursor - line` times printing `moveUp(1)`; both leave `cursor = line`; then "\r". -/
+`cursor - line` times printing `moveUp(1)` (`E.upArg` = 1); both leave `cursor = line`; then "\r". -/
 def TermWriter.goTo (E : Esc) (s : TermWriter) (line : Int) : TermWriter × Bytes :=
   let maxLine := if line > s.maxLine then line else s.maxLine
   let downs := (line - s.cursor).toNat
   let ups := (s.cursor - line).toNat
   ({ s with maxLine := maxLine, cursor := line },
-   repeatBytes downs E.nl ++ repeatBytes ups (moveUpf E 1) ++ E.cr)
+   repeatBytes downs E.nl ++ repeatBytes ups (moveUpf E E.upArg) ++ E.cr)
 
 /-- `writeAtCursor(text)` -/
 def TermWriter.writeAtCursor (c : Cfg) (s : TermWriter) (text : Bytes) : Bytes :=
